@@ -4,7 +4,7 @@ tx thread, the rx thread and of any number of user threads inside `disconnect()`
 
 `disconnect()` (every thread that runs it: users, and the tx / rx threads at their end), one point per shared access:
   d0  `self._running = False`
-  d1  drain `txq` (events of the dropped requests are set)
+  d1  drain `txq`: `while not self.txq.empty(): self.txq.get(False)` — one item per step, leaves when empty
   d2  `io = self.io; io.shutdown()`
   d3  `txthread = self._txthread`            (set → d4, `None` → d7)
   d4  `self.txq.put(None)`                   (the marker)
@@ -14,7 +14,7 @@ tx thread, the rx thread and of any number of user threads inside `disconnect()`
   d8  `rxthread.join()`                      (enabled iff the rx thread has finished)
   d9  `self._rxthread = None`
   d10 `io.disconnect(); self.io = None`
-  d11 `_abort_requests()` (drains `txq` again)
+  d11 `_abort_requests()`: drains `txq` again, one item per step, returns when empty
   fin returned
 tx thread: `check` (`while self._running`) → `get` (`self.txq.get()`, blocks on an empty queue) → marker: `x0` |
   entry: `proc` (file + send; a failing send leaves the loop) → `check`;  `x0`: `self._txthread = None`, then `disconnect(False)`.
@@ -55,7 +55,9 @@ def rxDone (s : Sh) : Bool := s.rx == .disc .fin
 /-- one step of `disconnect()` at point `p`: the new shared state and the next point; `none` = blocked (join) -/
 def dstep (s : Sh) : DPc → Option (Sh × DPc)
   | .d0 => some ({ s with running := false }, .d1)
-  | .d1 => some ({ s with txq := [] }, .d2)
+  | .d1 => match s.txq with
+    | [] => some (s, .d2)
+    | _ :: t => some ({ s with txq := t }, .d1)
   | .d2 => some ({ s with ioShut := true }, .d3)
   | .d3 => some (s, if s.txAttr then .d4 else .d7)
   | .d4 => some ({ s with txq := s.txq ++ [true] }, .d5)
@@ -65,7 +67,9 @@ def dstep (s : Sh) : DPc → Option (Sh × DPc)
   | .d8 => if rxDone s then some (s, .d9) else none
   | .d9 => some ({ s with rxAttr := false }, .d10)
   | .d10 => some (s, .d11)
-  | .d11 => some ({ s with txq := [] }, .fin)
+  | .d11 => match s.txq with
+    | [] => some (s, .fin)
+    | _ :: t => some ({ s with txq := t }, .d11)
   | .fin => none
 
 def moveUser (f : DPc → Nat) (a b : DPc) : DPc → Nat :=
